@@ -147,6 +147,9 @@ class Cloader:
     def open_bootloader_uri(self, uri=None):
         if self.link:
             self.link.close()
+        # A new link may reach a different bootloader: forget the geometry cached from the previous one
+        self.targets = {}
+        self.mapping = None
         if uri:
             self.link = cflib.crtp.get_link_driver(uri + '?safelink=0')
         else:
